@@ -154,6 +154,14 @@ class Conv(Contract):
             if not (isinstance(ret, np.ndarray) and ret.shape == arg.shape):
                 violated.append(f"array argument gives an array of the same shape (got {observed})")
                 return dict(violated=violated, observed=observed, inputs=inputs)
+            # zero-size arrays are arrays, too: every variant maps them to an array of the same (empty) shape
+            for shp in ((0,), (0, 3)):
+                try:
+                    r0 = f(np.zeros(shp))
+                    if not (isinstance(r0, np.ndarray) and r0.shape == shp):
+                        violated.append(f"array argument gives an array of the same shape (zero-size argument of shape {shp} gave {r0!r})")
+                except Exception as e:      # noqa: BLE001
+                    violated.append(f"array argument gives an array of the same shape (zero-size argument of shape {shp} raised {type(e).__name__})")
             vals = [float(v) for v in ret.flat]
         else:
             try:
